@@ -59,6 +59,10 @@ M = {
     "repeated-output-var-named-once": (["C03"], [("src/spox/_build.py",
         "        for key, var in zip(request_results, vars):\n            if set_names:\n                var._rename(key)",
         "        by_var = dict(zip(request_results.values(), vars))\n        for key, req in request_results.items():\n            if set_names:\n                by_var[req]._rename(key)")]),
+    "results-gains-prefix-parameter": (["C03"], [("src/spox/_graph.py",
+        "def results(**kwargs: Var) -> Graph:",
+        "def results(*vars: Var, prefix=\"out\", **kwargs: Var) -> Graph:"),
+        ("src/spox/_graph.py", "    return Graph(kwargs)\n", "    return Graph({**{f\"{prefix}{i}\": v for i, v in enumerate(vars)}, **kwargs})\n")]),
     # ---- C12
     # ---- refactorings of internals the harness looks at, combined with a real fault
     "refactor-manager-renamed-no-finally": (["C12"], [
@@ -105,6 +109,10 @@ M = {
         ("src/spox/_public.py",
         "    try:\n        for name, arg in kwargs.items():\n            # Only the first occurrence holds the original name (a Var may be passed under several keys)\n            pre.setdefault(arg, arg._name)\n            arg._rename(name)\n        yield\n",
         "    for name, arg in kwargs.items():\n        # Only the first occurrence holds the original name (a Var may be passed under several keys)\n        pre.setdefault(arg, arg._name)\n        arg._rename(name)\n    try:\n        yield\n")]),
+    "builder-opset-req-class-level-set": (["C12"], [("src/spox/_build.py",
+        "        self.model_opset_req = set(self.main._extra_opset_req or ()).union(\n            *(node.opset_req for graph in self.graphs for node in self.scope_own[graph])\n        )",
+        "        self.model_opset_req |= set(self.main._extra_opset_req or ()).union(\n            *(node.opset_req for graph in self.graphs for node in self.scope_own[graph])\n        )"),
+        ("src/spox/_build.py", "    # Graphs needed in the build\n", "    model_opset_req: Set[Tuple[str, int]] = set()\n    # Graphs needed in the build\n")]),
     "renames-restore-to-none": (["C12"], [("src/spox/_public.py",
         "        for arg, name in pre.items():\n            arg._rename(name)",
         "        for arg, name in pre.items():\n            arg._rename(None)")]),
